@@ -872,6 +872,240 @@ example : (run (α := ℚ) (φ := Unit) 0 (.scalar 3) [.setAspectRatio (.func ()
 
 end history
 
+/-! ## the radius interface over call histories (answers are functions of the current
+configuration and the current VALUES of the argument only) -/
+section radius
+open KawinV.SFState
+variable {α φ : Type} [Field α] [LinearOrder α] [IsStrictOrderedRing α]
+
+/-- the setter calls of a call history -/
+def cfgOps : List (ROp α φ) → List (Op α φ)
+  | [] => []
+  | .cfg op :: rest => op :: cfgOps rest
+  | .eval _ _ _ :: rest => cfgOps rest
+
+/-- the last shape / aspect-ratio specification of a call history -/
+def lastShapeR (sh0 : Nat) (h : List (ROp α φ)) : Nat := lastShape sh0 (cfgOps h)
+def lastSpecR (s0 : ArSpec α φ) (h : List (ROp α φ)) : ArSpec α φ := lastSpec s0 (cfgOps h)
+
+/-- what shape `sh` and specification `s` ask for: the description-level function of the aspect
+ratios of the CURRENT values, element by element -/
+def evalOfSpec (evalF : φ → α → α) (desc : Nat → Nat → List α → List α) (sh : Nat) :
+    ArSpec α φ → Nat → List α → List α
+  | .scalar c, w, vs => desc sh w (vs.map fun _ => c)
+  | .func f, w, vs => desc sh w (vs.map (evalF f))
+
+/-- the answers a history must give, tracking nothing but the last shape and specification -/
+def specAnswers (evalF : φ → α → α) (desc : Nat → Nat → List α → List α) :
+    Nat → ArSpec α φ → List (ROp α φ) → List (List α)
+  | _, _, [] => []
+  | sh, s, .cfg op :: rest => specAnswers evalF desc (opShape sh op) (opSpec s op) rest
+  | sh, s, .eval w _ vs :: rest => evalOfSpec evalF desc sh s w vs :: specAnswers evalF desc sh s rest
+
+theorem evalR_of_matches (evalF : φ → α → α) (desc : Nat → Nat → List α → List α)
+    (st : St α φ) (sh : Nat) (s : ArSpec α φ) (h : Matches st sh s) (w : Nat) (vs : List α) :
+    evalR evalF desc st w vs = evalOfSpec evalF desc sh s w vs := by
+  obtain ⟨h1, h2, h3⟩ := h
+  cases s with
+  | scalar c =>
+    have hf : aspectRatio evalF st = fun _ => c := by
+      funext R; simp [aspectRatio, h3.1, h3.2]
+    simp [evalR, aspectRatioArr, evalOfSpec, hf, h1]
+  | func f =>
+    have hf : aspectRatio evalF st = evalF f := by
+      funext R; simp [aspectRatio, h3]
+    simp [evalR, aspectRatioArr, evalOfSpec, hf, h1]
+
+/-- an evaluation does not look at the identity of its argument -/
+theorem runR_ignores_object (evalF : φ → α → α) (desc : Nat → Nat → List α → List α)
+    (st : St α φ) (w o₁ o₂ : Nat) (vs : List α) (rest : List (ROp α φ)) :
+    runR evalF desc st (.eval w o₁ vs :: rest) = runR evalF desc st (.eval w o₂ vs :: rest) := rfl
+
+/-- evaluations leave the object alone: the state after a history is the state after its setter calls -/
+theorem runR_state (evalF : φ → α → α) (desc : Nat → Nat → List α → List α) (h : List (ROp α φ)) :
+    ∀ st : St α φ, (runR evalF desc st h).1 = (cfgOps h).foldl SFState.apply st := by
+  induction h with
+  | nil => intro st; rfl
+  | cons op rest ih =>
+    intro st
+    cases op with
+    | cfg op => simp only [runR, cfgOps, List.foldl_cons]; exact ih _
+    | eval w o vs => simp only [runR, cfgOps]; exact ih _
+
+theorem runR_state_run (evalF : φ → α → α) (desc : Nat → Nat → List α → List α)
+    (sh0 : Nat) (s0 : ArSpec α φ) (h : List (ROp α φ)) :
+    (runR evalF desc (run sh0 s0 []) h).1 = run sh0 s0 (cfgOps h) := by
+  rw [runR_state]; rfl
+
+/-- **every answer of a call history is the one its configuration at that moment and the values
+of its argument ask for** — whatever was evaluated before, with whatever objects. -/
+theorem runR_answers (evalF : φ → α → α) (desc : Nat → Nat → List α → List α) (h : List (ROp α φ)) :
+    ∀ (st : St α φ) (sh : Nat) (s : ArSpec α φ), Matches st sh s →
+      (runR evalF desc st h).2 = specAnswers evalF desc sh s h := by
+  induction h with
+  | nil => intro st sh s _; rfl
+  | cons op rest ih =>
+    intro st sh s hm
+    cases op with
+    | cfg op =>
+      simp only [runR, specAnswers]
+      apply ih
+      have := apply_matches st s op
+      rwa [hm.1] at this
+    | eval w o vs =>
+      simp only [runR, specAnswers]
+      rw [evalR_of_matches evalF desc st sh s hm, ih st sh s hm]
+
+theorem run_nil_matches (sh0 : Nat) (s0 : ArSpec α φ) : Matches (run sh0 s0 ([] : List (Op α φ))) sh0 s0 :=
+  run_matches sh0 s0 []
+
+theorem runR_answers_run (evalF : φ → α → α) (desc : Nat → Nat → List α → List α)
+    (sh0 : Nat) (s0 : ArSpec α φ) (h : List (ROp α φ)) :
+    (runR evalF desc (run sh0 s0 []) h).2 = specAnswers evalF desc sh0 s0 h :=
+  runR_answers evalF desc h _ _ _ (run_nil_matches sh0 s0)
+
+/-- the answers of `h ++ [eval]` are those of `h` followed by the evaluation on the object `h` leaves -/
+theorem runR_append_eval (evalF : φ → α → α) (desc : Nat → Nat → List α → List α)
+    (h : List (ROp α φ)) (w o : Nat) (vs : List α) :
+    ∀ st : St α φ, (runR evalF desc st (h ++ [.eval w o vs])).2
+      = (runR evalF desc st h).2 ++ [evalR evalF desc (runR evalF desc st h).1 w vs] := by
+  induction h with
+  | nil => intro st; rfl
+  | cons op rest ih =>
+    intro st
+    cases op with
+    | cfg op => simp only [List.cons_append, runR]; exact ih _
+    | eval w' o' vs' => simp only [List.cons_append, runR, ih st]
+
+/-- **history independence of the radius interface**: after ANY call history `h` (setters and
+evaluations with any argument objects and contents), evaluating `which` on an argument with
+current contents `vs` gives what a FRESH object constructed with the last shape and the last
+aspect-ratio specification gives on `vs` — which is the description-level function of the aspect
+ratios of `vs`. -/
+theorem eval_history_independent (evalF : φ → α → α) (desc : Nat → Nat → List α → List α)
+    (sh0 : Nat) (s0 : ArSpec α φ) (h : List (ROp α φ)) (w : Nat) (vs : List α) :
+    evalR evalF desc (runR evalF desc (run sh0 s0 []) h).1 w vs
+        = evalR evalF desc (run (lastShapeR sh0 h) (lastSpecR s0 h) []) w vs
+    ∧ evalR evalF desc (runR evalF desc (run sh0 s0 []) h).1 w vs
+        = evalOfSpec evalF desc (lastShapeR sh0 h) (lastSpecR s0 h) w vs := by
+  have h1 : evalR evalF desc (runR evalF desc (run sh0 s0 []) h).1 w vs
+      = evalOfSpec evalF desc (lastShapeR sh0 h) (lastSpecR s0 h) w vs := by
+    rw [runR_state_run]
+    exact evalR_of_matches evalF desc _ _ _ (run_matches sh0 s0 (cfgOps h)) w vs
+  refine ⟨?_, h1⟩
+  rw [h1]
+  exact (evalR_of_matches evalF desc _ _ _ (run_nil_matches _ _) w vs).symm
+
+/-- two evaluations of the same object with the same configuration differ exactly as their
+contents ask: the same values give the same answer, whatever happened in between -/
+theorem eval_same_values_same_answer (evalF : φ → α → α) (desc : Nat → Nat → List α → List α)
+    (sh0 : Nat) (s0 : ArSpec α φ) (h₁ h₂ : List (ROp α φ)) (w : Nat) (vs : List α)
+    (hsh : lastShapeR sh0 h₁ = lastShapeR sh0 h₂) (hsp : lastSpecR s0 h₁ = lastSpecR s0 h₂) :
+    evalR evalF desc (runR evalF desc (run sh0 s0 []) h₁).1 w vs
+      = evalR evalF desc (runR evalF desc (run sh0 s0 []) h₂).1 w vs := by
+  rw [(eval_history_independent evalF desc sh0 s0 h₁ w vs).2,
+      (eval_history_independent evalF desc sh0 s0 h₂ w vs).2, hsh, hsp]
+
+/-! ### the identity-memo variant -/
+
+/-- every evaluation of object `o` in the history sees the contents `contents o`
+(no argument object is updated between two evaluations) -/
+def Immutable (contents : Nat → List α) : List (ROp α φ) → Prop
+  | [] => True
+  | .cfg _ :: rest => Immutable contents rest
+  | .eval _ o vs :: rest => vs = contents o ∧ Immutable contents rest
+
+/-- the memo holds the aspect ratios of the contents of the object it is keyed by -/
+def MemoOK (evalF : φ → α → α) (contents : Nat → List α) (m : MemoSt α φ) : Prop :=
+  ∀ o, m.lastR = some o → m.lastAR = aspectRatioArr evalF m.st (contents o)
+
+theorem memoLookup_spec (evalF : φ → α → α) (contents : Nat → List α) (m : MemoSt α φ)
+    (o : Nat) (vs : List α) (hm : MemoOK evalF contents m) (hv : vs = contents o) :
+    (memoLookup evalF m o vs).st = m.st
+    ∧ (memoLookup evalF m o vs).lastAR = aspectRatioArr evalF m.st vs
+    ∧ MemoOK evalF contents (memoLookup evalF m o vs) := by
+  by_cases hk : m.lastR = some o
+  · have : memoLookup evalF m o vs = m := by simp [memoLookup, hk]
+    rw [this]
+    exact ⟨rfl, by rw [hv]; exact hm o hk, hm⟩
+  · have : memoLookup evalF m o vs
+        = { m with lastR := some o, lastAR := aspectRatioArr evalF m.st vs } := by
+      simp [memoLookup, hk]
+    rw [this]
+    refine ⟨rfl, rfl, ?_⟩
+    intro o' ho'
+    have : o = o' := by simpa using ho'
+    subst this
+    simp [hv]
+
+/-- **the memo variant is right as long as no argument object changes its contents** (the
+excluded hypothesis is visible: `Immutable`). -/
+theorem memo_correct_of_immutable (evalF : φ → α → α) (desc : Nat → Nat → List α → List α)
+    (contents : Nat → List α) (h : List (ROp α φ)) :
+    ∀ m : MemoSt α φ, MemoOK evalF contents m → Immutable contents h →
+      (memoRun evalF desc m h).2 = (runR evalF desc m.st h).2 := by
+  induction h with
+  | nil => intro m _ _; rfl
+  | cons op rest ih =>
+    intro m hm hi
+    cases op with
+    | cfg op =>
+      simp only [memoRun, runR]
+      have hok : MemoOK evalF contents (memoFresh (SFState.apply m.st op)) := by
+        intro o ho; simp [memoFresh] at ho
+      exact ih _ hok hi
+    | eval w o vs =>
+      obtain ⟨hv, hi'⟩ := hi
+      obtain ⟨h1, h2, h3⟩ := memoLookup_spec evalF contents m o vs hm hv
+      simp only [memoRun, runR]
+      rw [ih _ h3 hi', h1, h2]
+      rfl
+
+theorem memo_correct_fresh (evalF : φ → α → α) (desc : Nat → Nat → List α → List α)
+    (contents : Nat → List α) (st : St α φ) (h : List (ROp α φ)) (hi : Immutable contents h) :
+    (memoRun evalF desc (memoFresh st) h).2 = (runR evalF desc st h).2 :=
+  memo_correct_of_immutable evalF desc contents h (memoFresh st)
+    (by intro o ho; simp [memoFresh] at ho) hi
+
+/-- non-vacuity of `Immutable`: two arrays evaluated alternately, a setter in between -/
+example : Immutable (α := ℚ) (φ := Unit) (fun o => if o = 0 then [1, 2] else [5])
+    [.eval 1 0 [1, 2], .eval 0 1 [5], .cfg (.setAspectRatio (.scalar 3)), .eval 1 0 [1, 2]] := by
+  simp [Immutable]
+
+/-- the witness history: needle with aspect ratio = R (a radius-dependent function), the array
+object 7 holds `[2]`, is evaluated, is doubled in place, is evaluated again -/
+def staleHistory : List (ROp ℚ Unit) := [.eval 1 7 [2], .eval 1 7 [4]]
+
+/-- **the identity-memo variant returns a stale answer after an in-place update**: on
+`staleHistory` it answers the second evaluation with the aspect ratios of the OLD contents,
+while the code as it is (and the specification) answer with those of the current contents. -/
+theorem memo_stale_after_inplace_update :
+    (memoRun (fun _ r => r) (fun _ _ ars => ars) (memoFresh (run 0 (.func ()) [])) staleHistory).2
+      = [[2], [2]]
+    ∧ (runR (fun _ r => r) (fun _ _ ars => ars) (run 0 (.func ()) []) staleHistory).2 = [[2], [4]]
+    ∧ specAnswers (fun _ r => r) (fun _ _ ars => ars) 0 (.func ()) staleHistory = [[2], [4]] := by
+  refine ⟨?_, ?_, ?_⟩ <;>
+    simp [staleHistory, memoRun, memoLookup, memoFresh, runR, evalR, aspectRatioArr, aspectRatio,
+      run, SFState.apply, setAR, blank, specAnswers, evalOfSpec]
+
+/-- … and `staleHistory` is exactly outside the hypothesis of `memo_correct_of_immutable` -/
+theorem staleHistory_not_immutable (contents : Nat → List ℚ) : ¬ Immutable contents staleHistory := by
+  intro h
+  simp only [staleHistory, Immutable] at h
+  have : ([2] : List ℚ) = [4] := h.1.trans h.2.1.symm
+  norm_num at this
+
+/-- with a CONSTANT aspect ratio the memo variant cannot be told apart on the same history
+(why a radius-dependent function is needed to see it) -/
+example :
+    (memoRun (α := ℚ) (φ := Unit) (fun _ r => r) (fun _ _ ars => ars)
+        (memoFresh (run 0 (.scalar 3) [])) staleHistory).2
+      = (runR (fun _ r => r) (fun _ _ ars => ars) (run 0 (.scalar 3) []) staleHistory).2 := by
+  simp [staleHistory, memoRun, memoLookup, memoFresh, runR, evalR, aspectRatioArr, aspectRatio,
+    run, SFState.apply, setAR, blank]
+
+end radius
+
 /-! ## the real numbers: the atoms are Mathlib's functions, their laws are proved -/
 section real
 open Real
